@@ -409,6 +409,59 @@ pub fn run(rep: &Report) -> i32 {
             }
         }
     }
+    // (2e) one name used in two unrelated scopes: parameters of a function named like the caller's variables (one of
+    // which the caller re-binds), two functions sharing parameter names, an arm binder named like a parameter.  Every
+    // injective choice of names per scope must give the program of the all-distinct choice
+    {
+        // placeholders {P} {Q} (scope 1), {R} {S} (scope 2), caller names fixed
+        let templates: [(&str, usize); 4] = [
+            ("fn same({P}: u8, {Q}: u8) -> bool {\n    jet::eq_8({P}, {Q})\n}\nfn main() {\n    let a: u8 = 1;\n    let b: u8 = 2;\n    let a: u8 = 2;\n    assert!(same(a, b));\n}\n", 1),
+            ("fn first({P}: u8, {Q}: u16) -> u8 {\n    {P}\n}\nfn second({R}: u8, {S}: u16) -> u16 {\n    {S}\n}\nfn main() {\n    let a: u8 = 7;\n    let b: u16 = 300;\n    let b: u16 = 301;\n    assert!(jet::eq_8(first(a, b), 7));\n    assert!(jet::eq_16(second(a, b), 301));\n}\n", 2),
+            ("fn pick({P}: Either<u8, u8>, {Q}: u8) -> u8 {\n    match {P} {\n        Left({R}: u8) => {R},\n        Right({S}: u8) => {Q},\n    }\n}\nfn main() {\n    let a: Either<u8, u8> = Left(5);\n    let b: u8 = 9;\n    let b: u8 = 6;\n    assert!(jet::eq_8(pick(a, b), 5));\n    assert!(jet::eq_8(pick(Right(1), b), 6));\n}\n", 3),
+            ("fn add3({P}: u8, {Q}: u8, {R}: bool) -> (bool, u8) {\n    jet::full_add_8({R}, {P}, {Q})\n}\nfn main() {\n    let c: bool = false;\n    let a: u8 = 1;\n    let b: u8 = 1;\n    let b: u8 = 100;\n    let (carry, sum): (bool, u8) = add3(a, b, c);\n    assert!(jet::eq_8(sum, 101));\n}\n", 4),
+        ];
+        let pool = ["p", "q", "a", "b", "c"];
+        let mut n_cases = 0u64;
+        for (t, kind) in templates {
+            let base = t.replace("{P}", "p1").replace("{Q}", "q1").replace("{R}", "r1").replace("{S}", "s1");
+            let base_cmr = cmr_of(&base);
+            if let Err(e) = &base_cmr {
+                rep.machinery(format!("cross-scope template rejected with all-distinct names: {e}\n{base}"));
+                continue;
+            }
+            for p in pool {
+                for q in pool {
+                    for r in pool {
+                        for s in pool {
+                            // injective per scope; templates 3 and 4 have one scope for the parameters (and, for 3, arm binders that may shadow them only if different from what the arm reads)
+                            let ok = match kind {
+                                1 => p != q && r == "p" && s == "p",
+                                2 => p != q && r != s,
+                                3 => p != q && r != q && s != q,
+                                _ => p != q && q != r && p != r && s == "p",
+                            };
+                            if !ok {
+                                continue;
+                            }
+                            let v = t.replace("{P}", p).replace("{Q}", q).replace("{R}", r).replace("{S}", s);
+                            n_cases += 1;
+                            rep.state();
+                            rep.transition(1);
+                            rep.eval(1);
+                            rep.trace(1);
+                            rep.nontrivial(1);
+                            match cmr_of(&v) {
+                                Ok(c) if Ok(&c) == base_cmr.as_ref() => rep.class("accepted-equal-cmr"),
+                                Ok(_) => rep.violation("C17:cross-scope-name-changes-program", format!("names ({p}, {q}, {r}, {s}): the program differs from the one with all-distinct names"), json!({"kind": "compile", "program": v, "other": base, "expect": "accept", "observed": "different-cmr"})),
+                                Err(e) => rep.violation("C17:cross-scope-name-changes-acceptance", format!("names ({p}, {q}, {r}, {s}): rejected ({e}), accepted with all-distinct names"), json!({"kind": "compile", "program": v, "other": base, "expect": "accept", "observed": "reject"})),
+                            }
+                        }
+                    }
+                }
+            }
+        }
+        rep.set("cross_scope_name_cases", json!(n_cases));
+    }
     // (2d) a long history of names in one process: several thousand renamings with identifiers never seen before, all
     // five roles at once, one after the other on this thread; every one must compile to the baseline's CMR, and the
     // baseline itself must still do so afterwards (tables of names that grow, wrap or are cleared)
